@@ -5,10 +5,15 @@ import float_grid
 
 EXTRA = {
     # the float layer: Base/FloatGrid*.v, Base/FloatDue*.v, Generated/TablesTime.v (Props/C01Float.v)
-    "C01": (("gen_tables_time.py",), (float_grid.check_float_grid,)),
+    "C01": (("gen_tables_time.py", "gen_tables_track.py"), (float_grid.check_float_grid,)),   # + Track.tick -> Sched/ModelSrcTrack.v, Props/C01Src.v
     # Props/C02Float.v, Props/C05Float.v: the note-off and action due tests generated from the source
-    "C02": (("gen_tables_time.py",), ()),
-    "C05": (("gen_tables_time.py", "gen_tables_sched.py"), ()),   # + Timeline._schedule_action -> Sched/SchedTimeSrc.v, Props/C05Src.v
+    # + the scheduler core translated from the source text (docs/TRANSLATOR3.md): gen_tables_track.py -> Generated/TablesTrack.v,
+    #   tied to Sched/Model.v in Sched/ModelSrc.v (glue: Sched/SrcGlue.v), theorems restated in Props/C02Src.v, C06Src.v ...
+    "C02": (("gen_tables_time.py", "gen_tables_track.py"), ()),
+    "C06": (("gen_tables_track.py",), ()),
+    "C07": (("gen_tables_track.py",), ()),     # Timeline.tick (phases, track loop) -> Sched/ModelSrcTick.v, Props/C07Src.v
+    "C17": (("gen_tables_track.py",), ()),     # the try/except of the track loop -> Props/C17Src.v
+    "C05": (("gen_tables_time.py", "gen_tables_sched.py", "gen_tables_track.py"), ()),   # + Timeline.tick's action phase -> Props/C05TickSrc.v   # + Timeline._schedule_action -> Sched/SchedTimeSrc.v, Props/C05Src.v
     # the source translators of docs/TRANSLATOR2.md (harness/src2coq.py): function bodies -> Generated/Tables<X>.v, tied to the
     # models by <Dir>/<Model>Src.v, property theorems restated in Props/<ID>Src.v
     "C13": (("gen_tables_tonal.py",), ()),     # Scale.get, Key.get/semitones/__contains__/nearest_note -> Tonal/KeySrc.v, Props/C13Src.v
